@@ -74,7 +74,6 @@ def oracle_allowed(cfg, args, oc_code, appid):
             return bare_hid(oc)
         return None
     hits = [(k, m) for k, m in enumerate(cfg["methods"]) if selector(method_sig(m)) == args[0]]
-    assert len(hits) <= 1, "selectors of a generated configuration collide"
     for k, m in hits:
         if cc_ok(m["mc"].get(oc, "never"), create):
             return m["hid"]
@@ -150,9 +149,16 @@ def build_router(pt, cfg):
     r = pt.Router("c08", bare, clear_state=clear)
     for m in cfg["methods"]:
         fn = method_fn(pt, m)
-        if m.get("via", "decorator") == "decorator":
+        via = m.get("via", "decorator")
+        if via == "decorator":
             kw = {oc: real_cc(pt, cc) for oc, cc in m["mc"].items()}
             r.method(**kw)(fn)
+        elif via == "default_decorator":       # documented default: MethodConfig(no_op=CallConfig.CALL)
+            assert m["mc"] == {"no_op": "call"}
+            r.method(fn)
+        elif via == "default_add":
+            assert m["mc"] == {"no_op": "call"}
+            r.add_method_handler(pt.ABIReturnSubroutine(fn))
         else:
             r.add_method_handler(pt.ABIReturnSubroutine(fn), method_config=real_mc(pt, m["mc"]))
     return r
@@ -268,8 +274,31 @@ def observe(res):
     return ("anomaly", repr(v))
 
 
+def observe_compact(row):
+    """(verdict xLOG ...) of the batch command -> same classification as observe"""
+    v = row[0]
+    tags = [l for l in row[1:] if isinstance(l, (bytes, bytearray)) and TAG_RE.match(l)]
+    if v == S("approve"):
+        if len(tags) == 1:
+            return ("runs", tag_handler(tags[0].decode()))
+        return ("approves", [t.decode() for t in tags])
+    if v == S("reject"):
+        return ("rejects",)
+    if v == S("fail"):
+        return ("fails",)
+    return ("anomaly", repr(v))
+
+
+def run_calls(proc, teal, msel, calls):
+    """Execute one TEAL program on many application calls [(args, oc, appid)]: the program is parsed once."""
+    res = proc.ask((S("runs"), (S("msel"),) + tuple(msel), teal) + tuple((S("c"), tuple(a), oc, appid) for a, oc, appid in calls))
+    if not isinstance(res, list) or not res or res[0] != S("r") or len(res) != len(calls) + 1:
+        return [("anomaly", repr(res)[:200])] * len(calls)
+    return [observe_compact(r) for r in res[1:]]
+
+
 def run_call(proc, teal, msel, args, oc, appid):
-    return observe(proc.ask((S("run"), make_ctx(args, oc, appid, msel), teal)))
+    return run_calls(proc, teal, msel, [(args, oc, appid)])[0]
 
 
 # ---------------------------------------------------------------------------------------------
@@ -397,8 +426,11 @@ def gen_cfg(rng, nmeth=None, nbare=None):
         bare[oc] = [rng.choice(BARE_KINDS), rng.choice(CCS[1:])]
     methods = []
     for k in range(nmeth):
-        methods.append({"name": "m%d" % k, "hid": k, "shape": rng.choice(["v0", "v0", "v0", "r0", "a1", "a2r"]),
-                        "mc": gen_mc(rng), "via": rng.choice(["decorator", "add"])})
+        mc = gen_mc(rng)
+        via = rng.choice(["decorator", "add"])
+        if mc == {"no_op": "call"} and rng.random() < 0.7:
+            via = rng.choice(["default_decorator", "default_add"])
+        methods.append({"name": "m%d" % k, "hid": k, "shape": rng.choice(["v0", "v0", "v0", "r0", "a1", "a2r"]), "mc": mc, "via": via})
     return {"bare": bare, "clear": rng.choice([None, "expr", "exprret", "sub", "abisub"]), "methods": methods}
 
 
